@@ -305,6 +305,7 @@ def run_accept_loop(ck, tier):
                 E.assume(c)
             w = World(E, st)
             E.rt['incoming'] = incoming
+            E.peer_addr_may_fail = True
             cfg = mk(E, 'MemcacheServerConfig', timeout_secs=BV(60, 32), connection_limit=BV(3, 32), item_memory_limit=BV(1 << 20, 32), listen_backlog=BV(16, 32))
             semref = Ref(E.alloc(Agg('Semaphore', [P])))
             srv = E.alloc(mk(E, 'MemcacheTcpServer', storage=Ref(w.memc_cell), limit_connections=semref, config=cfg))
@@ -320,7 +321,8 @@ def run_accept_loop(ck, tier):
             spawned2 = len(E.tasks)
             permits2 = E.load(semref).fields[0]
             ev2 = [e[0] for e in E.events if e[0] in ('accept', 'sem.acquire', 'sem.forget', 'spawn', 'sem.wait', 'sem.release_on_drop')]
-            return dict(r1=r1.var, spawned1=spawned1, permits1=permits1, ev1=ev1, r2=r2.var, spawned2=spawned2, permits2=permits2, ev2=ev2)
+            evk = [e[0] for e in E.events if e[0] == 'peer_addr']
+            return dict(evk=evk, r1=r1.var, spawned1=spawned1, permits1=permits1, ev1=ev1, r2=r2.var, spawned2=spawned2, permits2=permits2, ev2=ev2)
         res = ck.explore(h)
 
         def on_w(m, where):
@@ -331,6 +333,12 @@ def run_accept_loop(ck, tier):
                 continue
             F = p.out
             n = incoming
+            # whatever happens to one connection (its peer resets before it is accepted, socket options fail, ...) the
+            # listener keeps accepting: the run future never completes
+            ck.obligation(f'accept loop, {n} incoming: the accept loop never ends because of one connection', p.pc,
+                          z3.BoolVal(F['r1'] == 1 and F['r2'] == 1), {}, lambda m, where: native_accept_reset(ck), [])
+            if F['r1'] != 1 or F['r2'] != 1 or 'peer_addr' in F.get('evk', []):
+                continue
             exp1 = z3.If(z3.ULT(P, n), P, BV(n))
             ck.obligation(f'accept loop, {n} incoming: connections handed to tasks = min(incoming, free permits)', p.pc,
                           BV(F['spawned1']) == exp1, {}, on_w, [])
@@ -377,3 +385,20 @@ def native_accept(ck):
            f"C (opened while B is still open) served={c_served}"
     bad = c_served or not a_served or not b_waited or not b_later
     return (True if bad else None), desc, sc
+
+
+def native_accept_reset(ck):
+    """loopback, connection limit 1: A is served; B is accepted and waits for a slot; C connects and resets while it is still in
+    the listen backlog; A and B close; D must still be accepted and served."""
+    from .wire import frame
+    noop = frame(0x0a, opaque=9).hex()
+    sc = {'kind': 'socket', 'item_limit': 1024, 'timeout_secs': 5, 'connection_limit': 1, 'final_wait_ms': 200,
+          'conns': [{'chunks': [noop], 'pause_ms': 40, 'read_ms': 200, 'end': 'hold'},
+                    {'chunks': [noop], 'pause_ms': 40, 'read_ms': 200, 'end': 'hold'},
+                    {'chunks': [], 'pause_ms': 10, 'read_ms': 10, 'end': 'reset'},
+                    {'chunks': [noop], 'pause_ms': 40, 'read_ms': 600, 'end': 'close', 'close_first': [0, 1]}]}
+    out = ck.replay([sc])[0]
+    c = out['conns']
+    d_served = len(c[3].get('received', '')) >= 48
+    desc = f"connection limit 1: A served, B waiting, C connects and resets while still in the backlog, A and B close, then D connects: D served = {d_served}"
+    return (None if d_served else True), desc, sc
